@@ -18,7 +18,7 @@ TRAIT_BY_NAME = {t[0]: t for t in TRAITS}
 
 SUPPORT = r"""use core::fmt::{self, FormattingOptions, Write};
 
-pub const CAP: usize = 48;
+pub const CAP: usize = 96;
 
 /// fixed-capacity `fmt::Write`; no loops: bytes are copied slice-wise
 pub struct Sink { pub buf: [u8; CAP], pub len: usize, pub overflow: bool }
@@ -26,9 +26,10 @@ impl Sink {
     pub fn new() -> Self { Sink { buf: [0; CAP], len: 0, overflow: false } }
     pub fn same(&self, o: &Sink) -> bool {
         if self.len != o.len || self.overflow != o.overflow { return false; }
-        // unused tail bytes are zero in both: compare the whole buffers as three u128s
+        // unused tail bytes are zero in both: compare the whole buffers as six u128s
         let w = |b: &[u8; CAP], i: usize| { let mut x = [0u8; 16]; x.copy_from_slice(&b[i..i + 16]); u128::from_le_bytes(x) };
         w(&self.buf, 0) == w(&o.buf, 0) && w(&self.buf, 16) == w(&o.buf, 16) && w(&self.buf, 32) == w(&o.buf, 32)
+            && w(&self.buf, 48) == w(&o.buf, 48) && w(&self.buf, 64) == w(&o.buf, 64) && w(&self.buf, 80) == w(&o.buf, 80)
     }
 }
 impl fmt::Write for Sink {
